@@ -150,8 +150,10 @@ impl Prop for C07 {
         // (port reuse), with new sequence numbers and new content, after the earlier one has ended or has simply
         // stopped half-way; its packets all come after the predecessor's
         let mut successors: Vec<(usize, usize)> = vec![]; // (predecessor, successor)
-        if matches!(kind, Kind::Http | Kind::Tls) && r.chance(1, 5) {
-            let pi = r.usize_below(conns.len());
+        if matches!(kind, Kind::Http | Kind::Tls) && r.chance(1, 3) {
+            // prefer a predecessor that shares its pair of hosts with another connection (a key neighbour, a role swap)
+            let shared: Vec<usize> = (0..conns.len()).filter(|i| (0..conns.len()).any(|j| j != *i && ((conns[j].client.ip == conns[*i].client.ip && conns[j].server.ip == conns[*i].server.ip) || (conns[j].client.ip == conns[*i].server.ip && conns[j].server.ip == conns[*i].client.ip)))).collect();
+            let pi = if !shared.is_empty() && r.chance(2, 3) { *r.pick(&shared) } else { r.usize_below(conns.len()) };
             let ck = kinds_for(kind, r);
             let succ = conn::build(r, ck, conns[pi].client, conns[pi].server, &o);
             if r.chance(1, 2) && conns[pi].steps.len() > 4 {
@@ -187,6 +189,37 @@ impl Prop for C07 {
         }
         let via_loop = r.chance(1, 4);
         let boundaries = if via_loop && kind != Kind::Tcp && r.chance(1, 3) { (0..r.urange(1, 2)).map(|_| r.usize_below(order.len() + 1)).collect() } else { vec![] };
+        // focused interleaving for half of the successor scenarios: the predecessor runs to its end, another connection
+        // (preferably one sharing its hosts) gets as far as its first data segment, THEN the successor's SYN arrives,
+        // and everything else follows in a uniform merge
+        if let (Some((pi, si)), true) = (successors.first().cloned(), r.chance(1, 2)) {
+            let others: Vec<usize> = (0..conns.len()).filter(|j| *j != pi && *j != si).collect();
+            if !others.is_empty() {
+                let sharing: Vec<usize> = others.iter().cloned().filter(|j| (conns[*j].client.ip == conns[pi].server.ip && conns[*j].server.ip == conns[pi].client.ip) || (conns[*j].client.ip == conns[pi].client.ip && conns[*j].server.ip == conns[pi].server.ip)).collect();
+                let vi = if !sharing.is_empty() && r.chance(3, 4) { *r.pick(&sharing) } else { *r.pick(&others) };
+                let v_first_data = conns[vi].steps.iter().position(|st| st.seg.src == conns[vi].client && !st.seg.payload.is_empty()).map(|p| p + 1).unwrap_or(conns[vi].steps.len().min(3));
+                let mut head: Vec<usize> = std::iter::repeat(pi).take(conns[pi].steps.len()).collect();
+                head.extend(std::iter::repeat(vi).take(v_first_data));
+                head.push(si);
+                let mut remaining: Vec<usize> = vec![0; conns.len()];
+                for (j, c) in conns.iter().enumerate() {
+                    remaining[j] = c.steps.len();
+                }
+                for j in &head {
+                    remaining[*j] -= 1;
+                }
+                let mut tail = vec![];
+                while remaining.iter().any(|x| *x > 0) {
+                    let live: Vec<usize> = (0..conns.len()).filter(|j| remaining[*j] > 0).collect();
+                    let j = *r.pick(&live);
+                    remaining[j] -= 1;
+                    tail.push(j);
+                }
+                head.extend(tail);
+                order = head;
+            }
+        }
+        let boundaries = boundaries.into_iter().map(|b: usize| b.min(order.len())).collect();
         Scn { kind, cap: 2 * conns.len() + 4 + r.usize_below(50), conns, order, via_loop, boundaries }
     }
 
